@@ -103,6 +103,13 @@ def fixed_battery() -> List[Tuple[str, Any]]:
         ("CreateFile", {"kind": "create", "uri": "u"}),
         ("VersionedTextDocumentIdentifier", {"uri": "u", "version": 0}),
         ("OptionalVersionedTextDocumentIdentifier", {"uri": "u", "version": None}),
+        # one quantity in two spellings, custom values of open integer enumerations among them (caches keyed by value)
+        ("FileSystemWatcher", {"globPattern": "**/*.py", "kind": 7.0}),
+        ("FileSystemWatcher", {"globPattern": "**/*.py", "kind": 7}),
+        ("CompletionItem", {"label": "l", "kind": 99.0}),
+        ("CompletionItem", {"label": "l", "kind": 99}),
+        ("CompletionItem", {"label": "l", "kind": True}),
+        ("CompletionItem", {"label": "l", "kind": 1}),
         # rejected inputs
         ("Position", {"line": -1, "character": 0}),
         ("Position", {"line": 1}),
@@ -432,8 +439,14 @@ def child_reference(battery: List[Tuple[str, Any]]) -> dict:
     conv = c.get_converter()
     refs = {"DV_TRUE": conv, "DV_FALSE": c.get_converter(cattrs.Converter(detailed_validation=False)),
             "FORBID": c.get_converter(cattrs.Converter(forbid_extra_keys=True))}
-    return {"outcomes": [outcome(conv, t, name, j) for name, j in battery],
-            "by_group": {g: [outcome_detailed(cv, t, name, j) for name, j in battery] for g, cv in refs.items()}}
+    # evaluated last input first: what a converter gives for an input does not depend on what went through the package before
+    order = list(range(len(battery)))[::-1]
+    outs = {i: outcome(conv, t, battery[i][0], battery[i][1]) for i in order}
+    by_group = {}
+    for g, cv in refs.items():
+        og = {i: outcome_detailed(cv, t, battery[i][0], battery[i][1]) for i in order}
+        by_group[g] = [og[i] for i in range(len(battery))]
+    return {"outcomes": [outs[i] for i in range(len(battery))], "by_group": by_group}
 
 
 def _work_sched(args) -> dict:
@@ -527,7 +540,7 @@ PLAIN_KINDS = [k for k in CONFIGS if k not in CUSTOMISED]
 
 
 def customised(kind: str) -> bool:
-    return kind in CUSTOMISED or kind.startswith("flag:")
+    return kind in CUSTOMISED or kind.startswith("flag:") or kind.startswith("customised:")
 
 
 def child_history(ops: List[Any], fixed: List[Tuple[str, Any]], reference: List[Any], wide: Optional[list] = None, by_group: Optional[dict] = None) -> dict:
@@ -605,6 +618,23 @@ def child_history(ops: List[Any], fixed: List[Tuple[str, Any]], reference: List[
             label, conv = convs[op[1] % len(convs)]
             name, j = battery[op[2] % len(battery)]
             outcome(conv, t, name, j)
+        elif op[0] == "customise" and convs:
+            # the holder of one converter makes it its own (registers a hook, switches to strict keys): from here on that
+            # converter is a customised one - and none of the others is
+            i = op[1] % len(convs)
+            label, conv = convs[i]
+            try:
+                if op[2] == "int-hook":
+                    conv.register_structure_hook(int, lambda v, _: int(v) + 1000)
+                elif op[2] == "forbid-extra":
+                    conv.forbid_extra_keys = True
+                else:
+                    conv.register_unstructure_hook(t.Position, lambda p_: {"line": -1, "character": -1})
+            except Exception:
+                pass
+            convs[i] = ("customised:" + label, conv)
+            memo.pop(i, None)
+            conv = label = None
         # invariant
         for idx, (label, conv) in enumerate(convs):
             outs = [outcome(conv, t, name, j) for name, j in battery]
@@ -764,6 +794,11 @@ def _work_hist(args) -> dict:
         def use(self, ci, bi):
             self.ops.append(["use", ci, bi])
 
+        @precondition(lambda self: any(o[0] == "create" for o in self.ops) and sum(o[0] == "customise" for o in self.ops) < 3)
+        @rule(ci=st.integers(0, 100), what=st.sampled_from(["int-hook", "forbid-extra", "position-hook"]))
+        def customise(self, ci, what):
+            self.ops.append(["customise", ci, what])
+
         @precondition(lambda self: sum(o[0] == "create" for o in self.ops) > sum(o[0] == "drop" for o in self.ops))
         @rule(ci=st.integers(0, 100))
         def drop(self, ci):
@@ -788,7 +823,7 @@ def _work_hist(args) -> dict:
             stats["faulty_first_creations_that_failed"] += sum(1 for f in res.get("faults", [])[:1] if f[2] and self.ops and self.ops[0][0] == "fail-create")
             stats["uses"] += sum(1 for o in self.ops if o[0] == "use")
             stats["battery_evaluations"] += res["evaluations"]
-            short = [o[:2] if o[0] not in ("use", "fail-create", "fail-use") else o for o in self.ops]
+            short = [o[:2] if o[0] not in ("use", "fail-create", "fail-use", "customise") else o for o in self.ops]
             histories.append(short)
             for sig, detail, step in res["findings"]:
                 ctx.finding(tuple(sig), detail + f"; history {short[: step + 1]}", {"ops": self.ops[: step + 1]})
@@ -810,6 +845,19 @@ def _work_hist(args) -> dict:
                 stats["battery_evaluations"] += res["evaluations"]
                 for sig, detail, step in res["findings"]:
                     ctx.finding(tuple(sig), detail + f"; history {ops[: step + 1]}", {"ops": ops[: step + 1]})
+    if shard == 1:
+        for what in ("int-hook", "forbid-extra", "position-hook"):
+            ops = [["create", "fresh"], ["create", "fresh"], ["customise", 0, what], ["create", "fresh"], ["use", 1, 3], ["create", "Converter()"]]
+            ref = in_child(child_reference, fixed)
+            res = in_child(child_history, ops, fixed, ref["outcomes"], wide, ref.get("by_group")) if ref is not None else None
+            stats["scripted_histories"] += 1
+            if res is None:
+                stats["inconclusive_timeouts"] += 1
+                continue
+            stats["creations"] += 4
+            stats["battery_evaluations"] += res["evaluations"]
+            for sig, detail, step in res["findings"]:
+                ctx.finding(tuple(sig), detail + f"; history {ops[: step + 1]}", {"ops": ops[: step + 1]})
     run_state_machine_as_test(
         hypothesis.seed(derive_seed(seed, "C19", "hist", shard))(Hist),
         settings=settings(max_examples=examples, stateful_step_count=steps, database=None, deadline=None,
